@@ -190,7 +190,8 @@ def judge(diff, old, make_copy, acc, witness, tag):
 
 def run_main(spec, acc):
   for _, rng in acc.cases(spec):
-    pair = c10.gen_pair(rng, acc, pos_fraction=0.0)
+    # user subclasses of fdl.Config are outside the value converter's documented types
+    pair = c10.gen_pair(rng, acc, pos_fraction=0.0, exclude_edits=('btype-subclass',))
     if pair is None:
       continue
     old_root, new_root, edits, mode, old, new = pair
